@@ -35,6 +35,7 @@ fn main() {
     }
     if args.len() >= 4 && args[2] == "--replay" {
         std::env::set_var("IVK_NO_EVIDENCE", "1");
+        std::env::set_var("IVK_REPLAY_MODE", "1");
         std::process::exit(replay(id, &args[3]));
     }
     if std::env::var("IVK_LOUD").is_err() {
